@@ -473,7 +473,7 @@ func (x *EvalCtx) binary(n *EBinary) Val {
 		if b.S == "emp" {
 			return a
 		}
-		return Val{T: a.T, S: app("cat", a.S, b.S)}
+		return Val{T: a.T, S: x.s.c.catCanon(a.S, b.S)}
 	}
 	if kindOf(a.T) == kFloat {
 		if op := map[string]string{"<": "fp.lt", "<=": "fp.leq", ">": "fp.gt", ">=": "fp.geq"}[n.Op]; op != "" {
